@@ -84,10 +84,6 @@ BuilderAgrees == Done => key = KeyTab[ri]
 (* C43 *)
 C43_KeysSeparate ==
     Done => \A j \in 1..N : KeyTab[j] = key => ~(MustDiffer(r, RS[j]) /\ KnownFinding(r, RS[j]) = "")
-(* the known-finding classes are not empty words: each class really collides *)
-KnownFindingsAreReal ==
-    Done => \A j \in 1..N : (RS[j].kind = r.kind /\ MustDiffer(r, RS[j]) /\ KnownFinding(r, RS[j]) # "") => KeyTab[j] = key
-
 (* ---- leg B ---- *)
 CasesFile == IF "VERIF_CASES" \in DOMAIN IOEnv THEN IOEnv.VERIF_CASES ELSE "cases.ndjson"
 (* cheap pre-computed form of the parameters, only used to select the pairs to serialise *)
@@ -103,11 +99,18 @@ SlotTab == [i \in 1..N |-> <<RS[i].kind, RS[i].split, RS[i].start \div RS[i].spl
 InSlices(x) == x \notin (IF Big THEN BigRange \ (SliceTenantQuery \cup SliceTail \cup SliceTyped \cup SliceQueryTail \cup SliceUncached) ELSE {})
 SliceTab == [i \in 1..N |-> InSlices(RS[i])]
 OneOrNoDiff(i, j) == Cardinality({ k \in 1..8 : SemTab[i][k] # SemTab[j][k] }) <= 1
+(* the known-finding classes are not empty words: each class really collides.  Only requests that  *)
+(* agree on every keyed parameter can be in a known-finding class (cheap pre-filter).               *)
+KFCandidate(i, j) == \A k \in {1, 3, 4, 5, 8} : SemTab[i][k] = SemTab[j][k]
+KnownFindingsAreReal ==
+    Done => \A j \in 1..N : (KFCandidate(ri, j) /\ KeyTab[j] # key) =>
+                                ~(MustDiffer(r, RS[j]) /\ KnownFinding(r, RS[j]) # "")
+SliceIdx == { i \in 1..N : SliceTab[i] }
 (* Pairs for the harness (requests of the slices, same kind and interval): every pair the format     *)
 (* before the fix confused, every pair with equal keys now (known-finding classes), and every pair   *)
 (* differing in exactly one parameter.                                                               *)
-CasePairs == { p \in (1..N) \X (1..N) :
-                 /\ p[1] < p[2] /\ SliceTab[p[1]] /\ SliceTab[p[2]]
+CasePairs == { p \in SliceIdx \X SliceIdx :
+                 /\ p[1] < p[2]
                  /\ SlotTab[p[1]] = SlotTab[p[2]]
                  /\ \/ LegacyTab[p[1]] = LegacyTab[p[2]]
                     \/ KeyTab[p[1]] = KeyTab[p[2]]
